@@ -25,8 +25,8 @@ from ..core import Ctx, MachineryError, digest
 from ..forkpool import prepare_imports, run_cases
 from ..lattice import ALL, EMBEDDINGS
 from .. import tlc
-from .c04 import (apply_patch, doc_features, embeddings_for, fix_json, load, load_event, random_doc, strip_private,
-                  to_text, to_tree)
+from .c04 import (apply_patch, doc_features, embeddings_for, fix_json, generated_docs, load, load_event, random_doc,
+                  strip_private, to_text, to_tree)
 
 CLASSES = ["unknown_module", "bad_weight", "bad_area", "soft_no_area", "hard_with_area", "hard_no_rects",
            "hard_overlap", "unknown_attr", "invalid_name", "one_pin", "bad_rect_size"]
@@ -95,7 +95,8 @@ def decide(ctx: Ctx, cases: list[dict]):
                 excs[key] = [e.get("exc", "") for e in evs]
             owners[key].append(en)
     verdicts = tlc.validate_traces(ctx, "FpefTrace", "FpefTrace", list(traces.values()), chunk=4000)
-    for key, v in verdicts.items():
+    for key in sorted(verdicts):        # TLC reports in scheduling order; report in a fixed one
+        v = verdicts[key]
         t = traces[key]
         ctx.count(key, nontrivial=nontrivial(t["doc"]) or len(t["events"]) > 1, n=0)
         for (l, clause) in v["fails"]:
@@ -117,7 +118,7 @@ def decide(ctx: Ctx, cases: list[dict]):
                               {**doc_features(t["doc"]), "embedding": owners[key][0]})
         for (l, what) in v["drift"]:
             ctx.model_drift(f"{t['events'][l - 1]['op']}: {what}")
-    for t in list(traces.values())[:3]:
+    for t in [traces[k] for k in sorted(traces)[:3]]:
         ctx.sample({"trace": {"doc": t["doc"], "events": t["events"][:4]}, "embeddings": owners[t["id"]]})
     ctx.extra["exception_types_of_rejections"] = exc_types
     return traces
@@ -159,7 +160,7 @@ def run(ctx: Ctx) -> int:
         return ctx.finish("model_checking", "replay of one recorded document (and defect)")
     tier = ctx.tier
     tlc.model_check(ctx, "Fpef", f"Fpef_c05_mc_{tier}", vacuity_ignore=("Emit", "Save", "Reload", "Resave"))
-    gen = [fix_json(r) for r in tlc.generate(ctx, "Fpef", f"Fpef_gen_{tier}")]
+    gen = generated_docs(ctx, f"Fpef_gen_{tier}")
     rng = random.Random(ctx.seed * 1000003 + 5)
     budget = 2600 if tier == "quick" else 12000
     if len(gen) > budget:     # the model check covers all; replay a seeded sample (all one-module documents kept)
